@@ -1,6 +1,8 @@
-(** C07 — a failure stops its dependents (proved); exact error reporting: see Inv2. *)
+(** C07 — a failure stops its dependents, is reported once, and in-flight work finishes. *)
 From FG Require Import Dag Builder Sched DagFacts EdgeFacts RankFacts BuilderFacts TopoFacts AugFacts BuildFacts
-     SchedInv SafetyFacts CfgFacts StreamInv SI_Queuer SI_Step SI_Stream SafetyInv StreamFacts.
+     SchedInv SchedInv2 SafetyFacts CfgFacts StreamInv SI_Queuer SI_Step SI2_Step SI_Stream SafetyInv StreamFacts OutcomeFacts.
+From Coq Require Import Permutation.
+From FG Require Import Props.C09.
 
 (** try_for_each_concurrent* / control variants / try_fold_async*: no function ordered after a
     failed one by a dependency or data-conflict edge (a path of the built graph, in the order
@@ -19,6 +21,53 @@ Proof.
   unfold cf. rewrite (mk_cfg_es _ _ _ _ rev a mt ctl lim st incl imm er Hok). destruct rev; [apply (proj2 (Path_flip _ _ _))|]; exact Hp.
 Qed.
 Print Assumptions C07_dependents_never_start.
+
+(** When try_for_each_concurrent* (or a control variant) has returned: the errors it carries are
+    exactly the functions that failed - none lost, none duplicated -, it returns Err/Break iff some
+    function failed, and every function it started has completed. *)
+Theorem C07_errors_exact : forall ops G p q rev mt ctl lim st incl imm evs o,
+  build (builder_run ops) = BOk G p q ->
+  let cf := mk_cfg G rev ATryForEach mt ctl lim st incl imm true in
+  let s := run cf evs in
+  result s = Some o ->
+  Permutation (o_errs o) (failed (trace s)) /\
+  (failed (trace s) <> [] -> o_kind o = (if ctl then KBreak else KErr)) /\
+  (failed (trace s) = [] -> o_kind o <> KErr) /\
+  (forall x, In x (starts (trace s)) -> In x (ends (trace s))).
+Proof.
+  intros ops G p q rev mt ctl lim st incl imm evs o Hb cf s Hres.
+  destruct (run_invs ops G p q rev ATryForEach mt ctl lim st incl imm evs Hb) as (H1 & H2 & Hn). fold cf in H1, H2. fold s in H1, H2.
+  assert (Ha : c_api cf = ATryForEach) by reflexivity.
+  assert (Hc : c_ctl cf = ctl) by reflexivity.
+  clearbody s. clearbody cf.
+  destruct (ret_flags cf s o H2 Hres) as (_ & _ & Ho).
+  assert (Hd : s_err s = None \/ c_api cf <> ATryFold) by (right; rewrite Ha; discriminate).
+  destruct (make_result_fields cf s Hd) as (F1 & F2 & F3 & F4 & F5).
+  assert (Ht : is_tfe (c_api cf) = true) by (rewrite Ha; reflexivity).
+  pose proof (ret_errs_exact cf s o H1 H2 Hres Ht) as Hperm.
+  rewrite Ha in F4, F5. rewrite Hc in F5.
+  subst o. rewrite F4, F5.
+  split; [exact Hperm|]. split; [|split].
+  - intros Hne. destruct (errs s) as [|e l]; [apply Permutation_nil in Hperm; congruence|]. simpl. destruct ctl; reflexivity.
+  - intros He. rewrite He in Hperm. apply Permutation_sym, Permutation_nil in Hperm. rewrite Hperm. simpl.
+    destruct ctl; [destruct (s_rem s =? 0)|]; discriminate.
+  - apply (ret_started_ended cf s _ H1 H2 Hres).
+Qed.
+Print Assumptions C07_errors_exact.
+
+(** try_fold_async*: the error returned is the first (and only) failure, it is the last event of
+    the run - no function is invoked after it. *)
+Theorem C07_try_fold_first_error : forall ops G p q rev mt ctl lim st incl imm evs i,
+  build (builder_run ops) = BOk G p q ->
+  let cf := mk_cfg G rev ATryFold mt ctl lim st incl imm true in
+  s_err (run cf evs) = Some i ->
+  exists T1, trace (run cf evs) = T1 ++ [End i false] /\ failed T1 = [].
+Proof.
+  intros ops G p q rev mt ctl lim st incl imm evs i Hb cf Herr.
+  destruct (run_invs ops G p q rev ATryFold mt ctl lim st incl imm evs Hb) as (H1 & H2 & Hn).
+  destruct (x_serr_some _ _ H2 i Herr) as (_ & _ & T1 & Ht & Hf). exists T1. split; assumption.
+Qed.
+Print Assumptions C07_try_fold_first_error.
 
 Example C07_example :
   let ops := [AddFn (mkFn 0 [] []); AddFn (mkFn 1 [] []); AddFn (mkFn 2 [] []); AddLogic 0 1] in
